@@ -50,7 +50,7 @@ func init() {
 		ID:    "C08",
 		Level: "exploration",
 		Rule: "(A) seeded charts of literal YAML documents (all 38 InstallOrder kinds + unknown kinds; no/other/hook annotations with single, multiple, non-canonical and unknown events, weights, delete policies; blank and comment-only documents; separator variants '---', '--- ', '--- # comment', doubled, leading, trailing; CRLF files; partials, NOTES.txt, nested NOTES.txt, non-.yaml template files) rendered by a client-only dry-run install; " +
-			"(B) real install+uninstall of charts with 2-5 resources in each of 3-6 kinds (known and unknown) against the simulated API server with a 0-3 ms pseudo-random delay in front of every create/delete, under the race detector. " +
+			"(B) real install+uninstall of charts with 2-5 resources in each of 3-6 kinds (known and unknown) against the simulated API server with a 0-3 ms pseudo-random delay in front of every create/delete and, in half of the installs, a one-shot 409 Conflict on the first create of 1-3 resources of different kinds, under the race detector. " +
 			"distinct_nontrivial counts distinct chart shapes: (A) (#files bucket, #documents bucket, CRLF, number of separator variants used, document classes present, >12 generic documents, partial/NOTES present); (B) (#kinds, #resources, #unknown kinds).",
 		Assumptions: []string{
 			"server-side [recv,done] of a request lies inside the client-side call interval, so done(a) < recv(b) on the simulator's sequence counter is implied by a client-side barrier",
@@ -105,6 +105,9 @@ func post(a *core.Agg) string {
 	}
 	if a.Stats["partition_docs_in_manifest"] == 0 || a.Stats["partition_docs_in_hooks"] == 0 || a.Stats["partition_docs_dropped_unknown_event"] == 0 {
 		return "partition monitor saw no manifest / hook / unknown-event documents"
+	}
+	if a.Stats["creates_answered_409_conflict_and_resent"] == 0 {
+		return "no create was answered with the injected 409 Conflict (retry inside the batch unobserved)"
 	}
 	if a.Stats["unknown_kind_group_pairs_checked"] == 0 {
 		return "no install with two different unknown kinds (barrier between custom kinds unobserved)"
